@@ -49,6 +49,7 @@ class Ctx:
         self.blockvars = set()  # variables of type Block (`.number()` = `num`)
         self.numvars = set()    # BlockNumber variables
         self.statevars = set()  # BlockStoreState variables
+        self.selfkind = "self"  # "self" = BlockStore, "state" = BlockStoreState (inside `impl BlockStoreState`)
 
 
 def operand(s, cx):
@@ -69,7 +70,7 @@ def operand(s, cx):
     base = m.group(0)
     if base not in {"self"} | cx.lastvars | cx.blockvars | cx.numvars | cx.statevars:
         raise TErr(f"operand {s!r}: unknown variable {base}")
-    term, kind = base, ("self" if base == "self" else "last" if base in cx.lastvars else "block" if base in cx.blockvars
+    term, kind = base, (cx.selfkind if base == "self" else "last" if base in cx.lastvars else "block" if base in cx.blockvars
                        else "num" if base in cx.numvars else "state")
     pos = m.end()
     while pos < len(s):
@@ -89,6 +90,8 @@ def operand(s, cx):
                 term, kind = f"(num {term})", "num"
             elif meth == "next" and kind == "state":
                 term, kind = f"(← BlockStoreState.next bn {term})", "num"
+            elif meth == "head" and kind == "state":
+                term, kind = f"(← BlockStoreState.head bn {term})", "num"
             elif meth == "next" and kind == "num":
                 term, kind = f"(← bn {term})", "num"
             elif meth == "prev" and kind == "num":
@@ -327,15 +330,20 @@ def gen(src):
         out.append(f"def {lean_params} : {rt} :=\n{code}\n")
 
     out.append("namespace BlockStoreState\n")
+    def st(cx):
+        cx.selfkind = "state"
+
+    def st_num(cx):
+        cx.selfkind = "state"
+        cx.numvars.add("number")
     fn("BlockStoreState", "next", [], "Nat", False,
-       "next (bn : Nat → Except String Nat) (self : BlockStoreState)", lambda cx: None)
-    fn("BlockStoreState", "contains", ["number"], "Bool", False,
-       "contains (bn : Nat → Except String Nat) (self : BlockStoreState) (number : Nat)",
-       lambda cx: cx.numvars.add("number"))
+       "next (bn : Nat → Except String Nat) (self : BlockStoreState)", st)
     fn("BlockStoreState", "head", [], "Nat", False,
-       "head (bn : Nat → Except String Nat) (self : BlockStoreState)", lambda cx: None)
+       "head (bn : Nat → Except String Nat) (self : BlockStoreState)", st)
+    fn("BlockStoreState", "contains", ["number"], "Bool", False,
+       "contains (bn : Nat → Except String Nat) (self : BlockStoreState) (number : Nat)", st_num)
     fn("BlockStoreState", "verify", [], "Unit", False,
-       "verify (bn : Nat → Except String Nat) (self : BlockStoreState)", lambda cx: None)
+       "verify (bn : Nat → Except String Nat) (self : BlockStoreState)", st)
     out.append("end BlockStoreState\n")
     V = "{β : Type} (num : β → Nat) (bn : Nat → Except String Nat) (self : BlockStore β)"
     fn("BlockStore", "truncate_cache", [], "Unit", True, f"truncate_cache' {V}", lambda cx: None)
